@@ -117,6 +117,18 @@ def batches(rng, tier):
     ops = [f"offs {t} {L(d)} {mg}" for t in "us" for d in everyd + bigd]
     yield Batch("offset-all-sizes", ops, exhaustive=True, note=f"offset, in_range_dim, contents: all sizes 0..4^N (thorough: also 0..6 for N<=2), all positions with margin {mg} (signed: also below 0)")
 
+    # ---- std::size_t wrap-around: extents and positions around 2^16, 2^31, 2^32, 2^62, 2^63 (model: arithmetic mod 2^64)
+    big = [1, 2, 3, 65536, 2 ** 31, 2 ** 32 - 1, 2 ** 32, 2 ** 32 + 1, 2 ** 62, 2 ** 63 - 1]
+    ops = []
+    for n in (1, 2, 3):
+        for d in itertools.product(big, repeat=n):
+            d = list(d)
+            for p in ([x - 1 for x in d], [1] * n, [min(x, 2 ** 20 + 3) for x in d], d):
+                ops.append(f"off u {L(d)} {L(p)}")
+    yield Batch("offset-unsigned-wrap", ops, exhaustive=True,
+                note="offset / contents / in_range_dim of the std::size_t instantiation with extents in {1,2,3,2^16,2^31,2^32-1,2^32,2^32+1,2^62,2^63-1}^N: "
+                     "products beyond 2^64 wrap, the model computes modulo 2^64 (offsetW / contentsW)")
+
     # ---- at_optional / in_range: every size, every position in a margin
     ops = [f"ats {L(d)} {i % 3} {mg}" for i, d in enumerate(everyd + bigd)]
     yield Batch("at-optional-all-sizes", ops, exhaustive=True, note=f"in_range + at_optional (const and mutable) for all positions 0 <= p_i < d_i + {mg}")
@@ -187,6 +199,13 @@ def batches(rng, tier):
     for n in (1, 2):
         ops += [f"apply {L(a)} 1 {L(b)} 2" for a in alld[n] for b in alld[n]]
     yield Batch("apply-all-pairs-n12", ops, exhaustive=True, note="apply on two grids of every pair of sizes (result empty unless equal)")
+    ops = []
+    for n in (1, 2):
+        small = dims(n, [0, 1, 2])
+        ops += [f"apply {L(a)} 1 {L(b)} 2 {L(c)} 3" for a in small for b in small for c in small]
+    yield Batch("apply-all-triples-small", ops, exhaustive=True,
+                note="apply on three grids, every triple of sizes with extents 0..2 (N<=2): only the first / only the last / only the middle "
+                     "differs, two differ, all equal; with lvalue and mixed rvalue arguments of a cell type whose move is visible")
     r = rng.fork("apply")
     ops = []
     for _ in range(6000 if thorough else 1000):
